@@ -3,7 +3,7 @@
 STREAMS = {
     # name: pkg (under /verif/harness) | daemon (package main under /repo), optional overlay {repo-relative dst: overlay-relative src}
     'ring': dict(pkg='./cmd/ring'),
-    'processor': dict(pkg='./cmd/processor'),
+    'processor': dict(pkg='./cmd/processor', overlay={'motion/zz_verif_motion.go': 'motion/zz_verif_motion.go'}),
     'throttle': dict(pkg='./cmd/throttle'),
     'window': dict(pkg='./cmd/window'),
     'detector': dict(pkg='./cmd/detector', overlay={'motion/zz_verif_motion.go': 'motion/zz_verif_motion.go'}),
@@ -156,14 +156,15 @@ PROPS = {
     ),
     'C09': dict(
         lean=['Props.C09', 'Props.FactsProc'],
-        streams=['detector'],
+        streams=['detector', 'processor'],
+        project={'processor': r'^< det'},
         rule=DET_RULE, trusted=DET_TRUSTED,
         assumptions=['same event skeleton in both histories', 'dynamic threshold: no reset before/inside the FFC period (KNOWN-FINDING F7 otherwise)'],
     ),
     'C15': dict(
-        lean=['Props.C15', 'Props.C11Thr', 'Props.FactsProc', 'Props.Pipeline'],
-        streams=['detector', 'e2e', 'throttle'],
-        project={'throttle': r'^$'},
+        lean=['Props.C15', 'Props.PipeC15', 'Props.C11Thr', 'Props.FactsProc', 'Props.Pipeline'],
+        streams=['detector', 'e2e', 'throttle', 'processor'],
+        project={'throttle': r'^$', 'processor': r'^< det'},
         rule=DET_RULE, trusted=DET_TRUSTED,
         assumptions=['LowerLaw: new < bg -> float32(new) - w < float32(bg), true for the non-negative weights that occur', 'the float64 mean is within one count of the exact mean (validated by the monitor, not proved)', 'the clause "background and threshold stored with a recording are those at the trigger" is covered by the e2e stream'],
     ),
@@ -180,7 +181,8 @@ PROPS = {
     ),
     'C14': dict(
         lean=['Props.C14', 'Props.C14Daemons', 'Props.FactsWiring', 'Props.Pipeline'],
-        streams=['e2e', 'leptond', 'leptondloop'],
+        streams=['e2e', 'leptond', 'leptondloop', 'processor'],
+        project={'processor': r'^< det'},
         rule=E2E_RULE + '; leptond stream: the real sendCameraSpecs of the camera daemon run on a lepton3.Lepton3 whose I2C command interface is a register-level fake (serials up to 2^63-1, '
              'both part numbers and unknown ones, firmware bytes 0..255, failing serial / firmware queries), sent over a unix socket and read with the real ReadHeaderInfo and with the Lean decoder',
         trusted=E2E_TRUSTED + ['yaml.v1 (camera header): the model uses a decoder for the image of the encoder on flat maps, validated against the real decoder',
@@ -202,7 +204,7 @@ PROPS = {
              'non-trivial = at least one frame; distinct by op text',
         trusted=['Go channel semantics and scheduler are modelled (transition system), not verified', 'overlay harness in package main of cmd/thermal-writer',
                  'file roll-over after one minute is not exercised in the quick tier'],
-        assumptions=['frame streams without the clear marker (thermal-writer does not recognise it: observation in DESIGN.md)'],
+        assumptions=['none on frame contents: frames that begin with the recorder protocol\'s clear marker are generated too (thermal-writer must store them like any other frame)'],
     ),
     'C16': dict(
         lean=['Props.C16'],
